@@ -965,7 +965,8 @@ def _oracle_state(case, ir):
                     continue
                 if mt["st"] != "ok":
                     return {"what": f"{key}: find_margin_from_tally({tag}) raised {mt['err']}"}
-                if abs(mt["v"] - ma) > TOL * max(1.0, abs(ma)):
+                # (a NaN margin -- e.g. 0/0 when no card holds a valid vote -- is a mismatch, not a pass)
+                if not (abs(mt["v"] - ma) <= TOL * max(1.0, abs(ma))):
                     return {"what": f"{key}: margin from tally ({tag}) {mt['v']!r} != 2*mean-1 = {ma!r}"}
     return tagged
 
